@@ -43,6 +43,18 @@ def handle (op : String) (j : Json) : Option (Except String Json) :=
       pure <| jobj [("outs", jarr (outs.map (jopt jstr))),
                     ("ok_in", jarr (texts.map fun t => jbool (delimOk t))),
                     ("ok_out", jarr (outs.map fun o => jbool ((o.map delimOk).getD false)))]
+  | "c06.handlers" => some do
+      -- `_value_handler(template, cell)` and `_category_handler(entries, cell)` for many cells
+      let template ← getStr j "template"
+      let cells ← strList (← getVal j "cells")
+      let entries ← (← getArr j "entries").mapM fun kv => do
+        match kv with
+        | Json.arr #[Json.str k, Json.str v] => pure (k.toList, v.toList)
+        | _ => throw "entry must be [key, value]"
+      pure <| jobj [("missing", jarr (cells.map fun c => jbool (isMissing c))),
+                    ("value", jarr (cells.map fun c => jstr (valueHandler template c))),
+                    ("category", jarr (cells.map fun c => jstr (categoryHandler entries c))),
+                    ("keep", jarr (cells.map fun c => jbool (keep c)))]
   | "c06.delim" => some do
       let texts ← strList (← getVal j "texts")
       pure <| jobj [("ok", jarr (texts.map fun t => jbool (delimOk t)))]
